@@ -122,6 +122,22 @@ def check(ctx) -> Result:
     # conversions
     norm = Normaliser(lambda e: repr(e.value) if isinstance(e, ast.Constant) else None)
     re_guards.range_validator(ctx, res, ctx.func(CONV, "decimal_to_db_loss"), "loss", 0, 1, hi_strict=True, norm=norm)
+    # process_random_seed: None only for None, every integer comes back unchanged
+    prs = ctx.func(RND, "process_random_seed")
+    from ..guards import Lit, facts_at
+    pn = prs.params()[0]
+    for r in [x for x in walk_no_nested(prs.node) if isinstance(x, ast.Return)]:
+        v = r.value
+        if v is None or (isinstance(v, ast.Constant) and v.value is None):
+            facts = facts_at(prs.node, r) or []
+            ok = frozenset({Lit("is", pn, "None")}) in facts
+            res.add(ok, "J3-seed-preserved", "process_random_seed:return None", prs.site(r), prs.qualname, "None is returned only for seed None",
+                    "None (= 'no seed') is returned for a seed that is not None - e.g. a falsy integer such as 0: that seed no longer reproduces results; established: " + "; ".join(" or ".join(map(str, f)) for f in facts), construct=src(r))
+        else:
+            ok = isinstance(v, ast.Name) and v.id == pn or (isinstance(v, ast.Call) and src(v.func) == "int" and src(v.args[0]) == pn)
+            res.add(ok, "J3-seed-preserved", "process_random_seed:return", prs.site(r), prs.qualname, "returns the (integer-converted) seed itself", f"returns `{src(v)}` instead of the seed", construct=src(r))
+    reb = [a for a in walk_no_nested(prs.node) if isinstance(a, ast.Assign) and src(a.targets[0]) == pn]
+    res.add(all(src(a.value) == f"int({pn})" for a in reb), "J3-seed-preserved", "process_random_seed:conversion", prs.site(), prs.qualname, "the seed is only ever re-bound to int(seed)", "the seed is re-bound to something other than int(seed)", construct=";".join(src(a) for a in reb))
     # seeds
     for qn, gen in (("random_unitary", "rvs"), ("random_permutation", "default_rng")):
         f = ctx.func(RND, qn)
